@@ -1,5 +1,7 @@
 #![allow(dead_code)]
 use parity_scale_codec::{Compact, Decode, Encode};
 #[derive(Encode, Decode)]
-pub union T { a: u8, b: u16 }
+pub enum T {
+	#[codec(index = 300)] V0(u8),
+}
 fn main() {}
